@@ -56,7 +56,8 @@ def pre_build(ctx):
 
 
 def run(ctx):
-    core_units.run(ctx, which="C19")
+    import common as _common
+    _common.guarded(ctx, "K/S-units", core_units.run, ctx, which="C19")
     ctx.monitor_rule = ("after every step, for the optimizer and each population member / grid back-end: the tracked current and best "
                         "(position, score) pairs are among the pairs evaluated so far; best never decreases; current never "
                         "decreases for the four greedy variants; ties, non-finite scores (also long runs over tables that are 25-40% non-finite), constraints (fallback moves); "
